@@ -4,9 +4,11 @@ CONSTANTS
   Lengths = {1, 2, 3}
   Deltas <- MC_Deltas
   Bug = "none"
+  MaxBanks = 1
   Emit = TRUE
 INVARIANT TypeOK
 INVARIANT ArrivalAfterT0
+INVARIANT T0Linear
 INVARIANT EnergyConservation
 INVARIANT Boundary
 INVARIANT NoInf
